@@ -99,13 +99,17 @@ impl Number {
         unimplemented!()
     }
 
-    /// assumed: SOME two's-complement encoding of the value, at least one byte long; not assumed minimal
+    /// assumed: a two's-complement encoding of the value, at least one byte long; minimal for negative
+    /// values (no redundant 0xff); for non-negative values redundant leading zero bytes are allowed
+    /// (both libraries emit [0] for zero) -- stripping them is the repo's job and is verified
     #[verifier::external_body]
     pub fn to_signed_bytes_be(&self) -> (r: Vec<u8>)
         ensures
             r@.len() >= 1,
             signed_be(r@) == self.val(),
             r@.len() < 0x1_0000_0000,
+            self.val() < 0 ==> canonical_int(r@),
+            self.val() >= 0 ==> r@[0] < 0x80,
     {
         unimplemented!()
     }
@@ -153,6 +157,8 @@ impl Malachite {
             r@.len() >= 1,
             signed_be(r@) == self.val(),
             r@.len() < 0x1_0000_0000,
+            self.val() < 0 ==> canonical_int(r@),
+            self.val() >= 0 ==> r@[0] < 0x80,
     {
         unimplemented!()
     }
